@@ -241,6 +241,23 @@ def run(ctx):
                             cn = C.stmt_node(ctx, fn, n)
                             if g.dominates(cn, rn):
                                 closed = n
+        # a failed write must not be swallowed on the way to the replace
+        swallowed = None
+        for node in [x for x in (complete, closed) if x is not None]:
+            par = ctx.prog.parent.get(node)
+            child = node
+            while par is not None and par is not fn.node:
+                if isinstance(par, ast.Try) and child in par.body:
+                    for h in par.handlers:
+                        names = norm(h.type) if h.type is not None else "BaseException"
+                        if any(k in names for k in ("OSError", "IOError", "Exception", "BaseException", "EnvironmentError")) and not any(isinstance(x, ast.Raise) for x in ast.walk(h)):
+                            swallowed = h
+                if isinstance(par, ast.With) and any("suppress" in norm(i.context_expr) for i in par.items):
+                    swallowed = par
+                child = par
+                par = ctx.prog.parent.get(par)
+        if swallowed is not None:
+            ctx.violated("C17.2", fn, "an I/O error while writing the temporary file is swallowed (%s) and the replace still runs: a short or failed write is moved over the metafile" % norm(swallowed).split("\n")[0][:60], swallowed, path=where)
         ctx.decide("C17.2", fn, complete is not None,
                    "the temporary file receives the complete pyben encoding on every path to the replace (%s)" % norm(complete),
                    "no write of the complete encoding (pyben.dumps result / pyben.dump) to the temporary file dominates the replace",
@@ -287,6 +304,8 @@ MUTANTS = [
      "what": "temporary path is the metafile itself", "edits": [('    tempfile = str(metafile) + ".tmp"', '    tempfile = str(metafile)')]},
     {"name": "write-not-dominating", "file": "torrentfile/edit.py", "expect": "violated", "rule": "C17.2", "canary": True,
      "what": "write skipped on one path", "edits": [("        fd.write(encoded)\n", "        if len(encoded) < 1 << 20:\n            fd.write(encoded)\n")]},
+    {"name": "write-error-swallowed", "file": "torrentfile/edit.py", "expect": "violated", "rule": "C17.2", "canary": True,
+     "what": "OSError during the temporary write is ignored", "edits": [('    with open(tempfile, "wb") as fd:\n        fd.write(encoded)\n', '    try:\n        with open(tempfile, "wb") as fd:\n            fd.write(encoded)\n    except OSError:\n        logger.warning("could not write %s", tempfile)\n')]},
     {"name": "shutil-move-onto-metafile", "file": "torrentfile/edit.py", "expect": "violated", "rule": "C17.1",
      "what": "shutil.move (copy+delete across devices) instead of os.replace", "edits": [("    os.replace(tempfile, metafile)", "    import shutil\n    shutil.move(tempfile, metafile)")]},
     {"name": "benign-helper-extracted", "file": "torrentfile/edit.py", "expect": "clean",
